@@ -55,12 +55,21 @@ def chain(c, n):
 
 
 def in_subtree(c, root, n, cls=None):
+    """opaque-function wrapper around in_subtree_def (see Ctx.fun)"""
+    f = c.fun("in_subtree_%s" % cls, [Int, Int], z3.BoolSort(), lambda r, m: in_subtree_def(c, r, m, cls),
+              deps={"ByteInterval": ("$kind", "_byte_interval"), "Section": ("$kind", "_byte_interval", "_section"),
+                    "Module": ("$kind", "_byte_interval", "_section", "_module"),
+                    None: ("$kind", "_byte_interval", "_section", "_module")}.get(cls, ("$kind",)))
+    return f(root, n)
+
+
+def in_subtree_def(c, root, n, cls=None):
     """n is root or a containment descendant of root, by parent pointers; cls: static class of root
     (Block/Symbol: leaves; ByteInterval; Section; Module).  Kind-directed, fixed depth."""
     if cls is None:
-        return z3.Or(z3.And(c.isinst(root, "Module"), in_subtree(c, root, n, "Module")),
-                     z3.And(c.isinst(root, "Section"), in_subtree(c, root, n, "Section")),
-                     z3.And(c.isinst(root, "ByteInterval"), in_subtree(c, root, n, "ByteInterval")),
+        return z3.Or(z3.And(c.isinst(root, "Module"), in_subtree_def(c, root, n, "Module")),
+                     z3.And(c.isinst(root, "Section"), in_subtree_def(c, root, n, "Section")),
+                     z3.And(c.isinst(root, "ByteInterval"), in_subtree_def(c, root, n, "ByteInterval")),
                      z3.And(z3.Not(z3.Or(c.isinst(root, "Module"), c.isinst(root, "Section"),
                                          c.isinst(root, "ByteInterval"))), is_node(c, n), n == root))
     k = chain(c, n)
@@ -83,6 +92,12 @@ def in_subtree(c, root, n, cls=None):
 
 
 def ir_of(c, n):
+    f = c.fun("ir_of", [Int], Val, lambda m: ir_of_def(c, m),
+              deps=("$kind", "_byte_interval", "_section", "_module", "_ir"))
+    return f(n)
+
+
+def ir_of_def(c, n):
     """Val: the IR node n is attached to (None if detached), by the parent chain."""
     def up(v):
         return z3.If(is_VRef(v), parent_val(c, ref(v)), VNone)
@@ -105,6 +120,27 @@ def cache_map(c, ir):
 
 
 def wf_cache(c):
+    return z3.And(wf_cache_I1(c), wf_cache_I2(c))
+
+
+def wf_cache_I1(c):
+    ir = fresh("ir", Int)
+    n = fresh("n", Int)
+    return z3.ForAll([ir, n], z3.Implies(z3.And(c.isinst(ir, "IR"), is_node(c, n), ir_of(c, n) == VRef(ir)),
+                                         z3.And(z3.Select(cache_dom(c, ir), uuid_of(c, n)),
+                                                z3.Select(cache_map(c, ir), uuid_of(c, n)) == VRef(n))))
+
+
+def wf_cache_I2(c):
+    ir = fresh("ir", Int)
+    u = fresh("u", Val)
+    e = z3.Select(cache_map(c, ir), u)
+    return z3.ForAll([ir, u], z3.Implies(z3.And(c.isinst(ir, "IR"), z3.Select(cache_dom(c, ir), u)),
+                                         z3.And(is_VRef(e), is_node(c, ref(e)), ir_of(c, ref(e)) == VRef(ir),
+                                                uuid_of(c, ref(e)) == u)))
+
+
+def wf_cache_old(c):
     """For every IR: (I1) every node attached to it is found under its uuid; (I2) every entry is a node
     attached to it whose uuid is the key.  Together: get_by_uuid(u) is n  <=>  n attached to ir and uuid(n)==u."""
     ir = fresh("ir", Int)
